@@ -500,7 +500,12 @@ class MinFlowDecomp(pathmodel.AbstractPathModelDAG): # Note that we inherit from
                 left=right_node_index - MinFlowDecomp.subgraph_lowerbound_size, 
                 right=right_node_index)
 
-            subgraph_subpath_constraints = [c for c in self.subpath_constraints if all(n in subgraph.nodes() for n in c)]
+            # The constraints whose edges all belong to the window (a constraint is a list of edges; anything else is left
+            # to the validation of the k-model, which rejects it with a ValueError)
+            subgraph_subpath_constraints = [
+                c for c in self.subpath_constraints
+                if isinstance(c, list) and all(isinstance(e, tuple) and len(e) == 2 and e in subgraph.edges for e in c)
+            ]
             subgraph_edges_to_ignore = [e for e in self.edges_to_ignore if all(n in subgraph.nodes() for n in e)]
             
             subgraph_optimization_options = copy.deepcopy(self.optimization_options)
